@@ -96,7 +96,7 @@ class Impl:
         self.Mv = sp.symbols("M0:4", positive=True)
         self.Sv = sp.symbols("S1:4", positive=True)
         self.to_sq = {**{m[i]: sp.sqrt(self.Mv[i]) for i in range(4)}, **{s[i]: sp.sqrt(self.Sv[i]) for i in range(3)}}
-        self.evals = [self._compile(a) for a in self.args]
+        self.evals = [self._compile_safe(a) for a in self.args]
         self._float = {}
 
     def _entry(self, fam, f, idx):
@@ -122,6 +122,12 @@ class Impl:
                 self.args.append(arg)
             e["fid"] = self.fids[key]
         return e
+
+    def _compile_safe(self, arg):
+        try:
+            return self._compile(arg)
+        except Exception:  # noqa: BLE001 - an argument of unexpected shape is judged on the observation family only
+            return None
 
     def _compile(self, arg):
         """arccos argument -> function (M, S) -> (N, K1, K2) in exact integers, or None (opaque shape)."""
@@ -166,27 +172,34 @@ class Impl:
 
     def float_angle(self, key, M, S):
         """quantised value of the implementation's angle expression at a point (mpmath, 30 digits)."""
+        v = self.mp_angle(key, M, S)
+        return geo.UNDEF if v is None else geo.quant(v)
+
+    def mp_angle(self, key, M, S):
+        """mpmath value (possibly complex) of the implementation's angle expression at a point, at the
+        current mpmath precision; None if the call raised or the expression has no value there."""
         import mpmath as mp
 
         sp = self.sp
         expr = self.exprs.get(key)
         if expr is None:
-            return geo.UNDEF
-        if key not in self._float:
-            self._float[key] = sp.lambdify(self.msyms + self.ssyms, expr.doit(), modules="mpmath") if expr != 0 else (lambda *a: mp.mpf(0))
+            return None
         try:
+            if key not in self._float:
+                self._float[key] = sp.lambdify(self.msyms + self.ssyms, expr.doit(), modules="mpmath") if expr != 0 else (lambda *a: mp.mpf(0))
             v = self._float[key](*[mp.sqrt(mp.mpf(x)) for x in M], *[mp.sqrt(mp.mpf(x)) for x in S])
-        except (ZeroDivisionError, ValueError, TypeError):
-            return geo.UNDEF
-        return geo.quant(v)
+            return mp.mpmathify(v)
+        except Exception:  # noqa: BLE001 - no numerical value at this point (division by zero, NaN, unevaluable)
+            return None
 
     def table_record(self):
         return {"k": "table", "id": 0, "zeta": self.zeta, "hat": self.hat, "scat": self.scat, "nf": len(self.args)}
 
     def name_of_fid(self, fid):
-        for e in self.zeta + self.hat + self.scat:
-            if e["fid"] == fid:
-                return entry_name(e["t"])
+        for fam, tab in ((8, self.scat), (9, self.hat), (None, self.zeta)):
+            for e in tab:
+                if e["fid"] == fid:
+                    return entry_name(e["t"] if fam is None else [fam, *e["t"]])
         return f"formula#{fid}"
 
 
@@ -241,6 +254,68 @@ def nondegenerate(pt) -> bool:
     M, S = pt["M"], pt["S"]
     ks = [ps.kallen(M[0], M[i], S[i - 1]) for i in (1, 2, 3)] + [ps.kallen(S[l - 1], M[i], M[6 - i - l]) for i in (1, 2, 3) for l in (1, 2, 3) if l != i]
     return all(k > 0 for k in ks) and ps.kibble_int(S[0], S[1], M) < 0
+
+
+def hp_confirm(impl: Impl, clause: str, info, pt: dict) -> bool:
+    """Independent re-evaluation of a law clause that TLC rejected at a point: the implementation's own
+    angle expressions (and, for the geometric clauses, boosts of the four-momenta) at 60 digits, or exact
+    SymPy substitution for |arg| <= 1.  Two different algebraic numbers of this lattice's height differ by far
+    more than 1e-35, so a clause that TLC rejects for a good reason is always confirmed; if it is not, the
+    specification or the driver is wrong (machinery)."""
+    import mpmath as mp
+
+    bad = info[0] if isinstance(info, tuple) and info and isinstance(info[0], frozenset) else info
+    if not isinstance(bad, frozenset):
+        return False
+    M, S = pt["M"], pt["S"]
+    if clause == "ArgRange":
+        for fid in bad:
+            ex2 = impl.sp.simplify(impl.exact_arg(fid, M, S) ** 2)
+            if ex2.is_Rational and ex2 > 1:
+                return True
+            ev = impl.evals[fid - 1]
+            if ev is not None:
+                n, k1, k2 = ev(M, S)
+                if k1 > 0 and k2 > 0 and n * n > k1 * k2:
+                    return True
+        return False
+    with mp.workdps(60):
+        eps = mp.mpf(10) ** -35
+        P = pt["P"] if pt["P"] else geo.vectors_from_invariants(M, S)
+        gh, gt = geo.geometric_angles(P, raw=True)
+
+        def z(i, j, k):
+            return impl.mp_angle(("z", i, j, k), M, S)
+
+        def h(i, j):
+            return impl.mp_angle(("h", i, j), M, S)
+
+        def t(i, j):
+            return impl.mp_angle(("t", i, j), M, S)
+
+        def ne(a, b):  # both exist and differ
+            return a is not None and b is not None and abs(mp.mpmathify(a) - mp.mpmathify(b)) > eps
+
+        for x in bad:
+            if clause == "ZetaRef0" and ne(z(x[0], x[1], 0), z(x[0], x[1], x[0])):
+                return True
+            if clause == "ZetaZero" and ne(z(x[0], x[1], x[1]), 0):
+                return True
+            if clause == "ZetaAntisym" and z(x[0], x[2], x[1]) is not None and ne(z(x[0], x[1], x[2]), -z(x[0], x[2], x[1])):
+                return True
+            if clause == "HatAntisym" and h(x[1], x[0]) is not None and ne(h(x[0], x[1]), -h(x[1], x[0]) if x[0] != x[1] else 0):
+                return True
+            if clause == "SumRule":
+                b, c = z(x[0], x[1], x[0]), z(x[0], x[0], x[2])
+                if b is not None and c is not None and ne(z(x[0], x[1], x[2]), b + c):
+                    return True
+            if clause == "HatGeom" and ne(h(x[0], x[1]), gh[4 * x[0] + x[1]]):
+                return True
+            if clause == "ScatGeom" and ne(t(x[0], x[1]), gt[4 * x[0] + x[1]]):
+                return True
+            if clause == "ScatPi" and t(x[1], x[0]) is not None and ne(t(x[0], x[1]), mp.pi - t(x[1], x[0])):
+                return True
+    return False
 
 
 def first_index(info):
@@ -361,31 +436,44 @@ def run(chk, replay=None):
         if r[0].startswith("Harness"):
             raise Machinery(f"{r[0]} failed: {r}")
         report(r[0], r[1], r[2] if len(r) > 2 else None, "observation family, 2e-6 rad")
-    # 4b. exact rejections
+    # 4b. exact rejections.  A law clause of the property that TLC rejects on the implementation's values is a
+    # VIOLATION; before it is reported it is re-evaluated independently (60-digit evaluation of the implementation's
+    # own expressions / exact substitution), and only a rejection that this cannot reproduce is a machinery failure
+    # (it would mean the specification or the driver is wrong, not the implementation).
     drifts = {}
+    seen = set()
+    point_level = {r[0] for r in point_rejects} | {o[0][3:] for o in obs_rej}
     for r in table_rejects + point_rejects:
         clause, rid, info = r[0], r[1], r[2] if len(r) > 2 else None
         if clause.startswith("Harness"):
             raise Machinery(f"{clause} failed for record {rid}: driver or specification error ({info})")
         if clause in STRUCTURAL:
-            if clause == "ScatTable" and info is not None and not isinstance(info, frozenset):
-                raise Machinery(f"unexpected info {info}")
             chk.violation(law_signature(impl, clause, info), f"case table: {clause} fails for {sorted(info) if isinstance(info, frozenset) else info}", {"points": pts[:5]})
             continue
         if clause.endswith("Shape") or clause.endswith("Value"):
             # implementation-shaped: a violation only if the observation family rejects the same point (table: any point)
-            hit = [o for o in obs_rej if rid == 0 or o[1] == rid]
-            if not hit:
+            if rid != 0 and rid not in reject_ids:
+                continue
+            if not [o for o in obs_rej if rid == 0 or o[1] == rid]:
                 drifts.setdefault(clause, (rid, info))
             continue
-        if rid != 0 and rid not in reject_ids:
-            continue  # beyond the adjudicated subset; the same clause is reported from the subset
-        want = PROPERTY_TO_OBS.get(clause)
-        confirmed = any(o[0] == want and (rid == 0 or o[1] == rid) for o in obs_rej)
+        sig = law_signature(impl, clause, info)
+        if sig in seen:
+            continue
+        seen.add(sig)
+        if rid == 0:
+            # sign structure of the case table: a violation when a law fails by value at some point, otherwise shape only
+            want = PROPERTY_TO_OBS.get(clause, "Obs?")[3:]
+            if want in point_level:
+                chk.violation(sig, f"case table: {clause} fails for {sorted(info) if isinstance(info, frozenset) else info} and {want} fails by value at lattice points", {"points": pts[:20]})
+            else:
+                drifts.setdefault(clause, (rid, info))
+            continue
+        confirmed = hp_confirm(impl, clause, info, by_id[rid]) or any(o[0] == PROPERTY_TO_OBS.get(clause) and o[1] == rid for o in obs_rej)
         if not confirmed:
-            raise Machinery(f"TLC rejects {clause} at record {rid} ({by_id.get(rid)}; {info}) but the observation family does not show the difference: "
-                            "specification error, or a difference below 2e-6 rad")
-        report(clause, rid, info, "exact, confirmed on the observation family")
+            raise Machinery(f"TLC rejects {clause} at record {rid} ({by_id.get(rid)}; {info}) but neither the exact nor the 60-digit re-evaluation of the "
+                            "implementation's expressions reproduces a difference: specification or driver error")
+        report(clause, rid, info, "exact integer arithmetic in TLC, re-evaluated at 60 digits")
     for clause, (rid, info) in drifts.items():
         chk.spec_drift(f"{clause}: implementation-shaped part of the specification not followed (first at record {rid}: {info}); the angle laws hold on the observation family")
 
